@@ -24,6 +24,7 @@ class Profile:
         self.max_depth = 2
         self.enums = True
         self.enum_same_name = False   # enum named like its own field set
+        self.enum_reuse = False       # `as <name of an enum generated elsewhere>` on a later field (documented reuse)
         self.conversions = True
         self.reset_values = True
         self.cfgs = False
@@ -49,6 +50,7 @@ class Gen:
         self.commands = []
         self.blocks = []
         self.enum_count = 0
+        self.enum_pool = []   # generated enums so far: (name, base, declared width, kind)
         self.scope = 0        # id of the block body being generated (0 = root); refs without address override need it
         self.scopes = 0
         self.scope_of = {}    # object name -> scope it was declared in
@@ -86,8 +88,18 @@ class Gen:
             elif p.conversions and rng.random() < 0.4:
                 k = rng.random()
                 w = e - s
-                if k < 0.35:
-                    conv = adef.mk_direct(rng.choice(["crate::convtypes::Ty", "Ty"]))
+                carrier = lambda bits: max(8, 1 << (bits - 1).bit_length())
+                # reuse of a generated enum by name.  Only the combinations the book promises to compile: the integer type
+                # of the field must be the enum's, and without `try` the enum must be infallible for this field: it has a
+                # default/catch-all (From impl) or it covers every pattern of its own, at least as wide, field
+                reusable = [(n, b, ew, kd) for (n, b, ew, kd) in self.enum_pool
+                            if b == base and carrier(ew) == carrier(w) and n != owner
+                            and (kd in ("default", "catch_all", "both") or (kd == "cover" and w <= ew) or kd == "try")]
+                if p.enum_reuse and reusable and rng.random() < 0.3:
+                    n, b, ew, kd = rng.choice(reusable)
+                    conv = adef.mk_direct(n, kd == "try" or rng.random() < 0.2)
+                elif k < 0.35:
+                    conv = adef.mk_direct(rng.choice(["crate::convtypes::Ty", "Ty", "super::convtypes::Ty"]))
                 elif k < 0.5:
                     conv = adef.mk_direct("crate::convtypes::TryTy", True)
                 elif p.enums and w <= 16:
@@ -99,19 +111,20 @@ class Gen:
                     kind = rng.random()
                     if kind < 0.3:
                         vs = [adef.mk_variant("Va"), adef.mk_variant("Vb", "default")]
-                        tr = False
+                        tr, ek = False, "default"
                     elif kind < 0.55:
                         vs = [adef.mk_variant("Va", 1 if w > 1 else 0), adef.mk_variant("Vb", "catch_all")]
-                        tr = False
+                        tr, ek = False, "catch_all"
                     elif kind < 0.8:
                         vs = [adef.mk_variant("Va"), adef.mk_variant("Vb", (1 << w) - 1)]
-                        tr = True
+                        tr, ek = True, "try"
                     elif w <= 3:
                         vs = [adef.mk_variant("V" + "abcdefgh"[k2]) for k2 in range(1 << w)]
-                        tr = False
+                        tr, ek = False, "cover"
                     else:
                         vs = [adef.mk_variant("Va", 0), adef.mk_variant("Vb", "default"), adef.mk_variant("Vc", "catch_all")]
-                        tr = False
+                        tr, ek = False, "both"
+                    self.enum_pool.append((ename, base, w, ek))
                     conv = adef.mk_enum(ename, vs, tr)
             accs = [None, None, "RW", "RO"] + (["WO"] if p.wo_fields else [])
             out.append(adef.mk_field(FIELD_NAMES[i], base, s, end, access=rng.choice(accs), conv=conv,
